@@ -29,8 +29,18 @@ def run(tier, seed):
         if s["t"]["ln"] >= 6 and s["t"]["width"] >= 4:
             t = dict(s["t"], nasserts=5)
             extra.append(dict(s, t=t, asserts=None))
+    # sequences of 64 and more values (pre-computed "large" representation) with zero and non-zero first step
+    large = []
+    for s in [x for x in stmts if x["t"]["width"] >= 4 and x["t"]["ln"] == 6][:3 if tier == "quick" else 12]:
+        for ln in ([7] if tier == "quick" else [7, 8]):
+            t = dict(s["t"], ln=ln, nasserts=5)
+            n, w = 2 ** ln, t["width"]
+            a = starkgen.assertions(n, w, 5)
+            a[2] = dict(kind="periodic", col=0, first=1, stride=4, count=1)
+            a[3] = dict(kind="sequence", col=1, first=1, stride=2, count=n // 2)      # >= 64 values, first step 1
+            large.append(dict(s, t=t, asserts=a))
     scs = []
-    for i, rec in enumerate(stmts + extra[:40]):
+    for i, rec in enumerate(stmts + extra[:40] + large):
         if rec.get("asserts") is None:
             rec = dict(rec, asserts=starkgen.assertions(2 ** rec["t"]["ln"], rec["t"]["width"], rec["t"]["nasserts"]))
             rec["asserts"][2] = dict(kind="periodic", col=0, first=1, stride=4, count=1)
